@@ -131,9 +131,28 @@ def shifts_and_products(F, S):
                                        "%s is formed in %s bits" % (fmt_term(cal.term(x)), cal.n(x).get("iw"))))
                     else:
                         out.append(ok("R-TAINT", inst, cal.loc(x), cal.qn, "tileWidth x tileHeight cannot wrap before it sizes the mapping list", "formed in 64 bits"))
-    elif not W.arith_nodes(rs[0]["args"][0]):
+    # the sizing expression, looked at through locals that only name it (`const size_t count = w * h; resize(count)`)
+    roots_ = [rs[0]["args"][0]]
+    for _ in range(3):
+        for r_ in list(roots_):
+            for x in tg.subtree(r_):
+                nx = tg.n(x)
+                if nx["k"] == "DeclRefExpr" and nx.get("d") is not None:
+                    v_ = ("var", nx.get("n"), nx.get("d"))
+                    if tg.local_value_at(v_, rs[0]["id"]) is not None:
+                        i_ = tg.local_init_node_at(v_, rs[0]["id"])
+                        if i_ is not None and i_ not in roots_:
+                            roots_.append(i_)
+    area_nodes = []
+    for r_ in roots_:
+        for it_ in W.arith_nodes(r_):
+            if it_ not in area_nodes:
+                area_nodes.append(it_)
+    if arg0["k"] in CALLS and F.callees(arg0):
+        pass
+    elif not area_nodes:
         raise AnalysisBroken("ReadTileGroup: the size of the mapping list is not an arithmetic expression the rule recognises")
-    for (x, base) in W.arith_nodes(rs[0]["args"][0]):
+    for (x, base) in area_nodes:
         inst = "%s::ReadTileGroup#area:%s" % (M, fmt_term(tg.term(x)))
         if W.may_wrap(x, base):
             out.append(bad("R-TAINT", inst, tg.loc(x), tg.qn, "tileWidth x tileHeight cannot wrap before it sizes the mapping list", "needs %d bits, formed in %s" % (W.needed(x), tg.n(x).get("iw"))))
@@ -217,12 +236,22 @@ def version_tags(F, S):
 
 def tileset_sources(F, S):
     out = []
-    fn = F.fn(M + "::ReadTilesetSources", nparams=3)
+    # wherever the tileset sources are read (ReadTilesetSources, whatever its signature, or a per-source helper): at the read
+    # of numTiles, which follows the name, the name is known to be at most 8 characters
+    from ..through import closure
+    rb0 = F.fn(M + "::ReadMapBeginning", nparams=1)
     eng = Engine(F, S)
-    eng.analyze(fn, frozenset())
-    rd = [nd for nd in fn.nodes if nd["k"] == "CXXMemberCallExpr" and nd.get("fname") == "Read" and "numTiles" in repr(fn.term(nd["args"][0]))]
-    if len(rd) != 1:
+    eng.analyze(rb0, frozenset())
+    cands = []
+    for f0 in closure(F, rb0, depth=3):
+        for nd in f0.nodes:
+            if nd["k"] == "CXXMemberCallExpr" and nd.get("fname") == "Read" and nd.get("args") and "numTiles" in repr(f0.term(nd["args"][0])):
+                if final_site_facts(eng, f0, nd["id"]) is not None:
+                    cands.append((f0, nd))
+    if len(cands) != 1:
         raise AnalysisBroken("ReadTilesetSources: numTiles read not found")
+    fn, rd0 = cands[0]
+    rd = [rd0]
     site = final_site_facts(eng, fn, rd[0]["id"]) or set()
     good = any(f[0] == "<=" and f[1][0] == "size" and "tilesetFilename" in repr(f[1]) and f[2] == ("const", 8) for f in site)
     inst = M + "::ReadTilesetSources#name-length"
